@@ -396,6 +396,7 @@ static int vsi_accept(const int i, struct sockaddr *a, socklen_t *l) {
   for (int k = 0; k + 1 < VS_PEND; k++) vfd_pend[i][k] = vfd_pend[i][k + 1];
   vfd_npend[i]--;
   vfd_embryo[e] = 0; vfd_open[e] = 1; vfd_nonblock[e] = 0; vfd_cloexec[e] = 0;
+  vfd_keepalive[e] = vfd_keepalive[i];       /* Linux: the accepted socket inherits the listener's SO_KEEPALIVE */
   vs_copy_addr(vfd_remote[e], vfd_remotelen[e], a, l);
   return VS_FD0 + e;
 }
